@@ -136,6 +136,13 @@ pub struct HistCfg {
 
 pub fn run_hist(cfg: HistCfg) -> i32 {
     let n = cfg.scenarios.len() as u64;
+    {
+        let scs = std::sync::Arc::new(cfg.scenarios.clone());
+        set_describe(Some(std::sync::Arc::new(move |idx| {
+            let sc = &scs[idx as usize];
+            (format!("some history over {:?} on input {:?} with {:?}", sc.alphabet, esc(&sc.data), sc.env), replay_json("hist", &sc.data, &sc.env, json!({"scenario": sc, "history": [], "note": "a call of some history over the alphabet did not return"})))
+        })));
+    }
     let tot = par_sweep(n, 1, |idx, l| {
         let sc = &cfg.scenarios[idx as usize];
         let rs = reference(sc.env.format, &sc.data);
@@ -341,6 +348,21 @@ fn small_inputs(format: Format, tier: Tier) -> Vec<Vec<u8>> {
 
 /// number of source calls of a fault-free sequential read (upper end of the fault index range)
 fn source_calls(data: &[u8], env: &Env) -> usize {
+    // this is a plain sequential read on the setup path: make it visible to the watchdog so that a
+    // call that never returns is reported with its scenario
+    {
+        let (d2, e2) = (data.to_vec(), env.clone());
+        set_describe(Some(std::sync::Arc::new(move |_| {
+            (format!("sequential next() on input {:?} with {:?}", esc(&d2), e2), replay_json("next", &d2, &e2, json!({"driver": "Next"})))
+        })));
+        CUR_ITEM[0].store(1, std::sync::atomic::Ordering::Relaxed);
+    }
+    let n = source_calls_inner(data, env);
+    CUR_ITEM[0].store(0, std::sync::atomic::Ordering::Relaxed);
+    n
+}
+
+fn source_calls_inner(data: &[u8], env: &Env) -> usize {
     let d = std::rc::Rc::new(data.to_vec());
     let mut r = open(d, env);
     let mut guard = 0;
